@@ -41,7 +41,8 @@ var c15DecoyPool = []string{
 	"rules/REQUEST-932-APPLICATION-ATTACK-RCE.bak", "rules/#REQUEST-932-APPLICATION-ATTACK-RCE.conf#", "rules/REQUEST-932-APPLICATION-ATTACK-RCE.conf.orig", "rules/REQUEST-932-APPLICATION-ATTACK-RCE.conf~", "rules/unix-shell.data", "rules/README.example.md", "rules/backup.conf.d/",
 	"tests/regression/tests/REQUEST-932/9321000.yaml", "tests/regression/tests/REQUEST-932/932100.yaml.bak", "tests/regression/tests/REQUEST-932/932100.yaml~", "tests/regression/tests/REQUEST-932/notes.txt", "tests/regression/tests/REQUEST-932/93210.yaml", "tests/regression/tests/REQUEST-932/932100.json", "tests/regression/README.md",
 	"tests/regression/tests/REQUEST-932/932101", "tests/regression/tests/REQUEST-932/932120.json", "tests/regression/tests/REQUEST-932/932130.yaml.disabled", "tests/regression/tests/REQUEST-932/932140.txt",
-	"crs-setup.conf.example.bak", "docs/example.md", "util/tool.confx", "INSTALL", ".github/workflows/x.yaml",
+	"crs-setup.conf.example.bak", "docs/example.md", "crs-setup.conf.example.tmp", "rules/REQUEST-932-APPLICATION-ATTACK-RCE.conf.tmp", "rules/REQUEST-901-INITIALIZATION.conf.tmp", "regex-assembly/932100.ra.tmp", "tests/regression/tests/REQUEST-932/932100.yaml.tmp",
+	"regex-assembly-archive/old.ra", "regex-assembly.bak/932100.ra", "rules-old/REQUEST-932-APPLICATION-ATTACK-RCE.conf", "util/tool.confx", "INSTALL", ".github/workflows/x.yaml",
 }
 
 func genC15(t *rapid.T) C15Case {
@@ -58,7 +59,7 @@ func genC15(t *rapid.T) C15Case {
 		switch c.Cmd {
 		case "format", "format-check":
 			// rule arguments, include names, and names that are neither (other extensions, paths that leave the include directory)
-			c.Target = rapid.SampledFrom([]string{"932100", "932100.ra", "932110-chain1", "shared", "shared", "notes.txt", "data.raw", "../../rules/REQUEST-932-APPLICATION-ATTACK-RCE.conf", "../../../outside/notes.conf", "../../crs-setup.conf.example"}).Draw(t, "target")
+			c.Target = rapid.SampledFrom([]string{"932100", "932100.ra", "932110-chain1", "shared", "shared", "notes.txt", "data.raw", "../../rules/REQUEST-932-APPLICATION-ATTACK-RCE.conf", "../../../outside/notes.conf", "../../crs-setup.conf.example", "../../regex-assembly-archive/old", "../../regex-assembly.bak/932100.ra"}).Draw(t, "target")
 		case "renumber", "renumber-check":
 			c.Target = rapid.SampledFrom([]string{"932100", "932100.yaml", "932110", "932120", "932120.json", "932130", "932140"}).Draw(t, "target")
 		default:
@@ -175,6 +176,9 @@ func checkC15(c C15Case) Outcome {
 	if c.RootSel == "inner" {
 		sel = rootName + "/vendor/inner"
 	}
+	// sibling directories whose names start like the assembly directory's
+	tree[sel+"/regex-assembly-archive/old.ra"] = decoyContent("regex-assembly/")
+	tree[sel+"/regex-assembly.bak/932100.ra"] = decoyContent("regex-assembly/")
 	// files in the include directory that are no assembly files
 	tree[sel+"/regex-assembly/include/notes.txt"] = decoyContent("regex-assembly/")
 	tree[sel+"/regex-assembly/include/data.raw"] = decoyContent("regex-assembly/")
